@@ -513,3 +513,129 @@ func c06OrphanedCollectiveProposal(r *Rec) {
 		}
 	}
 }
+
+// c06PropertyWalk: governance walks the network properties through values the validation ACCEPTS (boundary values, zero
+// where zero is allowed, large values), one property per block; every following block must still be produced.
+func c06PropertyWalk(r *Rec) {
+	episodes, steps := 3, 60
+	if r.Tier == "thorough" {
+		episodes, steps = 12, 200
+	}
+	ids := npIds()
+	for ep := 0; ep < episodes; ep++ {
+		label := fmt.Sprintf("network-property walk %d", ep)
+		r.Mark(label)
+		w := NewWorld(WorldOpts{NAcc: 6, NVal: 3, SudoAccs: []int{5}})
+		k := w.app.CustomGovKeeper
+		var trail []string
+		for st := 0; st < steps; st++ {
+			id := ids[r.Rng.Intn(len(ids))]
+			var req govtypes.NetworkPropertyValue
+			cur, gerr := k.GetNetworkProperty(w.ReadCtx(), govtypes.NetworkProperty(id))
+			if gerr != nil {
+				continue
+			}
+			if cur.StrValue != "" {
+				if id == int(govtypes.UniqueIdentityKeys) {
+					continue
+				}
+				req.StrValue = npDecCands[r.Rng.Intn(len(npDecCands))]
+			} else {
+				req.Value = npU64Cands[r.Rng.Intn(len(npU64Cands))]
+			}
+			accepted := false
+			br := w.Block(nil, BlockOpts{Dt: time.Duration(1+r.Rng.Intn(3000)) * time.Second, Mid: func(ctx sdk.Context) {
+				if err := withCache(ctx, func(c sdk.Context) error { return k.SetNetworkProperty(c, govtypes.NetworkProperty(id), req) }); err == nil {
+					accepted = true
+				}
+			}})
+			if accepted {
+				trail = append(trail, fmt.Sprintf("%s:=%d/%q", govtypes.NetworkProperty(id), req.Value, req.StrValue))
+				if len(trail) > 12 {
+					trail = trail[len(trail)-12:]
+				}
+			}
+			r.Count(fmt.Sprintf("property-walk:accepted=%v", accepted))
+			if br.Panicked != nil {
+				site := c06Site(br.Panicked, br.Stack)
+				if key, what := c06Classify(site); key != "" {
+					r.Known(key, what+fmt.Sprintf(" [%s, block %d, panic in %s]", label, w.height, br.Phase))
+				} else {
+					r.Fail("C06/network-properties/accepted-configuration-halts", fmt.Sprintf("%s: block %d panicked in %s: %s; the last accepted settings: %v", label, w.height, br.Phase, site, trail), nil)
+				}
+				break
+			}
+			w.ApplyUpdates(br.Updates)
+		}
+		r.Case(label, true)
+	}
+	c06PropertyPairs(r)
+}
+
+// c06PropertyPairs: pairs of properties at zero - a fractional property (rate, share, percentage) set to "0" where the
+// validation accepts that, then every numeric property set to 0 where the validation accepts THAT under the first
+// setting; one block each. (A rule that guards a divisor only while some rate is positive shows up here.)
+func c06PropertyPairs(r *Rec) {
+	label := "network-property pairs at zero"
+	r.Mark(label)
+	var decs, u64s []int
+	{
+		w := NewWorld(WorldOpts{NAcc: 2, NVal: 1, SudoAccs: []int{0}})
+		for _, id := range npIds() {
+			cur, err := w.app.CustomGovKeeper.GetNetworkProperty(w.KeeperCtx(), govtypes.NetworkProperty(id))
+			if err != nil || id == int(govtypes.UniqueIdentityKeys) {
+				continue
+			}
+			if cur.StrValue != "" {
+				decs = append(decs, id)
+			} else {
+				u64s = append(u64s, id)
+			}
+		}
+	}
+	for _, q := range decs {
+		w := NewWorld(WorldOpts{NAcc: 6, NVal: 3, SudoAccs: []int{5}})
+		k := w.app.CustomGovKeeper
+		set := func(id int, v govtypes.NetworkPropertyValue) (ok bool, halted bool) {
+			br := w.Block(nil, BlockOpts{Mid: func(ctx sdk.Context) {
+				ok = withCache(ctx, func(c sdk.Context) error { return k.SetNetworkProperty(c, govtypes.NetworkProperty(id), v) }) == nil
+			}})
+			if br.Panicked == nil {
+				w.ApplyUpdates(br.Updates)
+				// one more block: BeginBlock under the new setting
+				br = w.Block(nil, BlockOpts{})
+				if br.Panicked == nil {
+					w.ApplyUpdates(br.Updates)
+					return ok, false
+				}
+			}
+			site := c06Site(br.Panicked, br.Stack)
+			if key, what := c06Classify(site); key != "" {
+				r.Known(key, what+fmt.Sprintf(" [%s, block %d, panic in %s]", label, w.height, br.Phase))
+			} else {
+				cq, _ := k.GetNetworkProperty(w.ReadCtx(), govtypes.NetworkProperty(q))
+				r.Fail("C06/network-properties/accepted-configuration-halts", fmt.Sprintf("%s: with %s = %q, after %s := %d/%q was accepted, block %d panicked in %s: %s", label, govtypes.NetworkProperty(q), cq.StrValue, govtypes.NetworkProperty(id), v.Value, v.StrValue, w.height, br.Phase, site), nil)
+			}
+			return ok, true
+		}
+		okQ, halted := set(q, govtypes.NetworkPropertyValue{StrValue: "0"})
+		r.Count(fmt.Sprintf("property-pairs:fraction-at-zero-accepted=%v", okQ))
+		if halted || !okQ {
+			continue
+		}
+		for _, p := range u64s {
+			orig, _ := k.GetNetworkProperty(w.ReadCtx(), govtypes.NetworkProperty(p))
+			okP, halted := set(p, govtypes.NetworkPropertyValue{Value: 0})
+			r.Count(fmt.Sprintf("property-pairs:number-at-zero-accepted=%v", okP))
+			if halted {
+				break
+			}
+			if okP {
+				if back, h2 := set(p, orig); h2 || !back {
+					break // the old value is not acceptable any more under this configuration: start the next fraction afresh
+				}
+			}
+		}
+	}
+	r.Case(label, true)
+}
